@@ -300,6 +300,7 @@ Example C03_concrete_magnitudes :
                  [[Some (3 # 5)]; [Some (1 # 3)]; [Some (11 # 10)]] = 0%nat
   /\ c03_nc_case 3 false [mscale (a * a) M] [vscale a u] [vscale a v] [Some (18 # 36)]
                  [[Some 0]; [Some 0]; [Some 0]] = 3%nat
-  /\ c03_rerun_case tol48 [Some (1 # 3); None; Some 2] [Some (1 # 3); Some 1; Some 2] = 0%nat
-  /\ c03_rerun_case tol48 [Some 0; None; Some 2] [Some (1 # 3); Some 1; Some 2] = 1%nat.
+  /\ c03_rerun_case tol48 [Some (1 # 3); Some 5; Some 2] [Some (1 # 3); None; Some 2] = 0%nat
+  /\ c03_rerun_case tol48 [Some 0; Some 5; Some 2] [Some (1 # 3); None; Some 2] = 1%nat
+  /\ c03_rerun_case tol48 [Some (1 # 3); None; Some 2] [Some (1 # 3); Some 1; Some 2] = 1%nat.
 Proof. vm_compute. repeat split; reflexivity. Qed.
